@@ -95,3 +95,83 @@ func (w *world) checkProvenance() {
 		}
 	}
 }
+
+const c02bRule = "single-fault enumeration: a fault-free base case (scenario + schedule) is generated as in C02Provenance; then for EVERY backend call index of the base run the same scenario and recorded schedule are re-executed with that one call failing (unique injected error); " +
+	"the provenance oracle and the quiescence oracle (no stuck Get, no leaked key lock) are applied to every re-execution; a case = base run + all its fault positions; non-trivial = the base run had >=3 backend calls and >=2 Gets"
+
+// TestC02FaultEnum enumerates every backend call of sampled schedules as the single fault position.
+func TestC02FaultEnum(t *testing.T) {
+	runCheck(t, "C02", "C02FaultEnum", c02bRule, func(c *Case) {
+		o := scenOpts{maxKeys: 2, minGets: 1, maxGets: 4, skipRead: true, clock: 2, external: 1, prefail: true, postActions: true, failPct: 35}
+		sc := drawScenario(c, o)
+		sc.describe(c)
+		mark := len(c.Choices)
+
+		calls := 0
+
+		run := func(cc *Case, faultAt int) {
+			cc.Bubble(func() {
+				w := newWorld(cc, sc.cfg)
+				w.faultAtCall = faultAt
+				w.prepare(sc)
+
+				complete := w.runSchedule(freshGets(sc), ctlOpts{clockSteps: o.clock, clockMenu: sc.cfg.clockMenu(), external: o.external})
+				w.reportProblems()
+				w.checkProvenance()
+
+				if complete {
+					for _, g := range w.log.gets {
+						cc.Assert(g.done, "stuck-get", "fault at backend call #%d: %s Get(%s) never returned", faultAt, g.task, keyName([]byte(g.key)))
+					}
+
+					cc.Assert(w.fe.KeyLocks() == 0, "leaked-key-lock", "fault at backend call #%d: %d key lock(s) remain", faultAt, w.fe.KeyLocks())
+				}
+
+				if faultAt < 0 {
+					calls = w.wrap.calls
+				}
+			})
+		}
+
+		run(c, -1)
+
+		schedule := append([]int{}, c.Choices[mark:]...)
+
+		if calls >= 3 && len(sc.gets) >= 2 {
+			c.NonTrivial()
+		}
+
+		for i := 0; i < calls; i++ {
+			sub := newCase(c.Prop, c.Check, &scriptChooser{vals: schedule}, c.tt, nil)
+			runCase(sub, func(cc *Case) { run(cc, i) })
+
+			if sub.fail != nil {
+				for _, l := range sub.trace {
+					c.Tracef("  [fault@%d] %s", i, l)
+				}
+
+				c.Failf(sub.fail.Sig, "with backend call #%d of %d failing: %s", i, calls, sub.fail.Msg)
+			}
+
+			c.known = append(c.known, sub.known...)
+		}
+
+		st := statsFor("C02", "C02FaultEnum", c02bRule)
+		st.mu.Lock()
+		st.Extra["fault_positions_enumerated"] += calls
+		st.Extra["executions"] += calls + 1
+		st.mu.Unlock()
+	})
+}
+
+// freshGets returns copies of the scenario's Get specs (a spec carries per-run state).
+func freshGets(sc *scenario) []*getSpec {
+	out := make([]*getSpec, len(sc.gets))
+	for i, g := range sc.gets {
+		cp := *g
+		cp.buf, cp.ctx, cp.cancelFn = nil, nil, nil
+		out[i] = &cp
+	}
+
+	return out
+}
